@@ -22,8 +22,9 @@ func TestVerifReplayC18(t *testing.T) {
 	json.Unmarshal(data, &sc)
 	num := func(k string) int { f, _ := sc.Inputs[k].(float64); return int(f) }
 	bv := func(k string) bool { v, _ := sc.Inputs[k].(bool); return v }
-	taskOf := []string{"t1", "nosuch", "", "", ""}
-	pipeOf := []string{"", "", "p1", "p2", "nosuchp"}
+	taskOf := []string{"t1", "nosuch", "", "", "", "p1", "p2", "", "t1", "t1"}
+	pipeOf := []string{"", "", "p1", "p2", "nosuchp", "", "", "t1", "p1", "p2"}
+	defName := []string{"t1", "nosuch", "p1", "p2", "nosuchp", "p1", "p2", "t1", "p1", "p2"}
 	names := []string{"", "x", "y"}
 	deps := []string{"x", "y", "t1", "p2", "zz"}
 	type st struct {
@@ -34,13 +35,15 @@ func TestVerifReplayC18(t *testing.T) {
 	mk := func(id string, sb *strings.Builder) st {
 		k, n := num("stage."+id+".kind"), num("stage."+id+".name")
 		s := st{kind: k}
-		if taskOf[k] != "" {
+		switch {
+		case taskOf[k] != "" && pipeOf[k] != "":
+			fmt.Fprintf(sb, "    - task: %s\n      pipeline: %s\n", taskOf[k], pipeOf[k])
+		case taskOf[k] != "":
 			fmt.Fprintf(sb, "    - task: %s\n", taskOf[k])
-			s.eff = taskOf[k]
-		} else {
+		default:
 			fmt.Fprintf(sb, "    - pipeline: %s\n", pipeOf[k])
-			s.eff = pipeOf[k]
 		}
+		s.eff = defName[k]
 		if names[n] != "" {
 			fmt.Fprintf(sb, "      name: %s\n", names[n])
 			s.eff = names[n]
@@ -59,7 +62,7 @@ func TestVerifReplayC18(t *testing.T) {
 	s2 := mk("p2.0", &sb)
 	wt := []string{"t1", "nosuch"}[num("watcher.task")]
 	fmt.Fprintf(&sb, "watchers:\n  w:\n    task: %s\n    watch: ['*.nothing']\n", wt)
-	refOK := func(s st) bool { return s.kind == 0 || s.kind == 2 || s.kind == 3 }
+	refOK := func(s st) bool { return s.kind == 0 || s.kind == 2 || s.kind == 3 || s.kind == 8 || s.kind == 9 }
 	depIn := func(s st, o ...st) bool {
 		if s.dep == "" {
 			return true
